@@ -34,8 +34,10 @@ def seed_table():
     n = len(metas)
     yes = len([m for m in metas if m["detected_by_check"] == "yes"])
     partly = len([m for m in metas if m["detected_by_check"] == "partly"])
-    no = n - yes - partly
-    head = "%d seeded changes kept; detected by a deciding (solver) harness: %d; only by an auxiliary (enumeration/sweep) part: %d; missed: %d.\n\n" % (n, yes, partly, no)
+    obsolete = len([m for m in metas if m["detected_by_check"] == "obsolete"])
+    no = n - yes - partly - obsolete
+    head = ("%d seeded changes kept; detected by a deciding (solver) harness: %d; only by an auxiliary (enumeration/sweep) part: %d; "
+            "neutralised by a later repair in /repo (no longer a violation, own demo passes): %d; missed: %d.\n\n" % (n, yes, partly, obsolete, no))
     return head + "\n".join(rows)
 
 
